@@ -126,6 +126,20 @@ fn g_timing_stalls(t: &mut Tape) -> Scenario {
     gen_scenario(t, &p)
 }
 
+/// C08: unrelated ICMP traffic trickles in all through the run, at intervals around one read
+/// timeout, so that some of it arrives while a round only waits for its deadline: traffic the
+/// tracer has no use for must not buy the round more time.
+fn g_timing_chatter(t: &mut Tape) -> Scenario {
+    let mut sc = g_timing(t);
+    let rt = sc.tracer.read_timeout_ns.max(10_000);
+    sc.tracer.rounds = sc.tracer.rounds.min(5);
+    sc.tracer.max_round_ns = sc.tracer.max_round_ns.min(rt * 60);
+    sc.tracer.min_round_ns = sc.tracer.min_round_ns.min(sc.tracer.max_round_ns);
+    sc.inject.chatter_gap_ns = rt / 3 + u64::from(t.draw((rt * 5 / 3 / 1000).max(1) as u32)) * 1000;
+    sc.stable = false;
+    sc
+}
+
 fn g_inject(t: &mut Tape) -> Scenario {
     let mut p = Profile::base();
     p.inject = true;
@@ -431,6 +445,21 @@ fn g_capacity_boundary(t: &mut Tape) -> Scenario {
     sc.stable = false;
     sc.epoch_liveness = false;
     sc
+}
+
+/// C07: initial sequences at and above the documented maximum (64511), in every executable
+/// configuration and address family: above it the builder refuses, at it the rounds run and
+/// restart without ever re-issuing a number of the preceding round.
+fn g_seq_limit(t: &mut Tape) -> Scenario {
+    let mut sc = fault_enum_base(t.draw(fe_cfgs()));
+    sc.tracer.initial_seq = [64_510u16, 64_511, 64_512, 65_000, 65_023, 65_024, 65_534, 65_535][t.draw(8) as usize];
+    sc.tracer.rounds = 4;
+    sc.stable = false;
+    sc
+}
+
+fn seq_limit_dims(_tier: &str) -> Vec<u32> {
+    vec![fe_cfgs(), 8]
 }
 
 /// C05: the state is cleared in the middle of a trace with many short rounds; the figures
@@ -1255,6 +1284,7 @@ pub fn registry() -> Vec<PropertyCheck> {
             rule: "long seeded runs (50..1500 short rounds) from boundary and random initial sequences, both maximum-sequence regimes, TCP port-collision storms up to every bind failing; sequence arithmetic monitor over every send attempt plus re-delivery of all previous-round responses; a boundary walk aligns a round start with each value next to the restart limit (pilot run, then initial sequence chosen accordingly) and lets that round use its whole budget; non-trivial/distinct as for C01",
             families: vec![
                 Family { name: "wrap-aligned-storm", gen: g_wrap_aligned, oracle: oracle::c07, opts: opts_light(), quick_runs: 2_000, thorough_runs: 40_000, must_reach: &[], enum_dims: None },
+                Family { name: "initial-sequence-limit", gen: g_seq_limit, oracle: oracle::c07, opts: opts_light(), quick_runs: 0, thorough_runs: 0, must_reach: &[], enum_dims: Some(seq_limit_dims) },
                 Family { name: "capacity-boundary", gen: g_capacity_boundary, oracle: oracle::c07, opts: opts_light(), quick_runs: 1_500, thorough_runs: 40_000, must_reach: &["fault.addr_in_use_burst"], enum_dims: None },
                 Family { name: "full-cycle", gen: g_full_cycle, oracle: oracle::c07, opts: opts_light(), quick_runs: 96, thorough_runs: 2_000, must_reach: &[], enum_dims: None },
                 Family { name: "long-runs", gen: g_long, oracle: oracle::c07, opts: opts_light(), quick_runs: 6_000, thorough_runs: 300_000, must_reach: &[], enum_dims: None },
@@ -1335,6 +1365,7 @@ pub fn registry() -> Vec<PropertyCheck> {
             rule: "seeded scenarios over all first/max ttl, max-inflight, path lengths and arrival orders; online send-discipline monitor over the interleaved sequence of wire records and hand-overs; non-trivial/distinct as for C01",
             families: vec![
                 Family { name: "swarm", gen: g_base, oracle: oracle::c06, opts: opts_light(), quick_runs: 200_000, thorough_runs: 8_000_000, must_reach: &["reach.probe_reached_target"], enum_dims: None },
+                Family { name: "long-runs", gen: g_long, oracle: oracle::c06, opts: opts_light(), quick_runs: 6_000, thorough_runs: 300_000, must_reach: &[], enum_dims: None },
                 Family { name: "socket-faults", gen: g_sockfaults, oracle: oracle::c06, opts: opts_light(), quick_runs: 50_000, thorough_runs: 1_500_000, must_reach: &[], enum_dims: None },
             ],
             assumptions: vec![ASSUME_SIM, ASSUME_CLOCK],
@@ -1346,6 +1377,7 @@ pub fn registry() -> Vec<PropertyCheck> {
             families: vec![
                 Family { name: "timing", gen: g_timing, oracle: oracle::c08, opts: opts_light(), quick_runs: 150_000, thorough_runs: 6_000_000, must_reach: &[], enum_dims: None },
                 Family { name: "timing-stalls", gen: g_timing_stalls, oracle: oracle::c08, opts: opts_light(), quick_runs: 50_000, thorough_runs: 2_000_000, must_reach: &["fault.stall"], enum_dims: None },
+                Family { name: "timing-chatter", gen: g_timing_chatter, oracle: oracle::c08, opts: opts_light(), quick_runs: 30_000, thorough_runs: 1_000_000, must_reach: &["inject.chatter"], enum_dims: None },
                 Family { name: "swarm", gen: g_base, oracle: oracle::c08, opts: opts_light(), quick_runs: 50_000, thorough_runs: 2_000_000, must_reach: &[], enum_dims: None },
             ],
             assumptions: vec![ASSUME_SIM, ASSUME_CLOCK],
